@@ -423,6 +423,9 @@ impl FixtureDatabase {
             debug!("Circular import detected for {:?}, skipping", file_path);
             return HashSet::new();
         }
+        // A nested call can be cut short by the visited set of its caller; only a
+        // top-level result is complete and safe to memoise.
+        let is_top_level = visited.is_empty();
         visited.insert(canonical_path.clone());
 
         // Get the file content first (needed for cache validation)
@@ -448,14 +451,16 @@ impl FixtureDatabase {
         let imported_fixtures = self.compute_imported_fixtures(&canonical_path, &content, visited);
 
         // Store in cache
-        self.imported_fixtures_cache.insert(
-            canonical_path.clone(),
-            (
-                content_hash,
-                current_version,
-                Arc::new(imported_fixtures.clone()),
-            ),
-        );
+        if is_top_level {
+            self.imported_fixtures_cache.insert(
+                canonical_path.clone(),
+                (
+                    content_hash,
+                    current_version,
+                    Arc::new(imported_fixtures.clone()),
+                ),
+            );
+        }
 
         info!(
             "Found {} imported fixtures for {:?}: {:?}",
